@@ -381,6 +381,16 @@ def element_sources(ctx: Ctx, frame: FuncInfo, env, coll: Optional[ast.AST], _de
                 if isinstance(r, ast.Return) and r.value is not None:
                     out |= element_sources(ctx, prop, None, r.value, _depth + 1)
             return out or {"?"}
+    if isinstance(coll, ast.Call) and id(coll) in ctx.an.spliced_at:
+        # a helper spliced in here (also: a private property written as the method it is) that returns a view of registries
+        from ..cfg import bind_args
+        t_ = ctx.an.spliced_at[id(coll)]
+        sub_ = bind_args(coll, t_, frame, env)
+        out = set()
+        for r in ctx.an.scope(t_)._own_nodes():
+            if isinstance(r, ast.Return) and r.value is not None:
+                out |= element_sources(ctx, t_, sub_, r.value, _depth + 1)
+        return out or {"?"}
     if isinstance(coll, ast.Call):
         fn = coll.func
         cname = ctx.an.scope(frame).callee(coll).name.rpartition(".")[2]
@@ -447,6 +457,20 @@ def registry_view(ctx: Ctx, frame: FuncInfo, env, e: Optional[ast.AST], _depth: 
         for fld, tag in REG_OF_FIELD.items():
             if re.search(r"\." + fld + r"$", p):
                 return {tag}
+    if isinstance(e, ast.Call) and id(e) in ctx.an.spliced_at:
+        from ..cfg import bind_args
+        t_ = ctx.an.spliced_at[id(e)]
+        sub_ = bind_args(e, t_, frame, env)
+        rets_ = [r.value for r in ctx.an.scope(t_)._own_nodes() if isinstance(r, ast.Return)]
+        if not rets_ or any(r is None for r in rets_):
+            return None
+        out_: Set[str] = set()
+        for r in rets_:
+            sv = registry_view(ctx, t_, sub_, r, _depth + 1)
+            if sv is None:
+                return None
+            out_ |= sv
+        return out_
     parts: List[ast.AST] = []
     if isinstance(e, ast.Dict) and e.keys and all(k is None for k in e.keys):
         parts = list(e.values)
